@@ -155,7 +155,8 @@ class Polyline:
         cls.validate(data)
 
         return cls(
-            v=np.array(data["vertices"], dtype=cls.POSITION_DTYPE),
+            # Reshaping allows for an empty list of vertices.
+            v=np.array(data["vertices"], dtype=cls.POSITION_DTYPE).reshape(-1, 3),
             is_closed=data["isClosed"],
         )
 
